@@ -266,7 +266,7 @@ def digest(vals):
 
 JQ_MODES = [[], ["-c"], ["--tab"], ["--indent", "1"], ["--indent", "7"], ["-c"]]
 YQ_JSON_MODES = [["-o", "json"], ["-o", "json", "-I", "0"], ["-o", "json", "-I", "4"], ["-o", "json", "--tab"]]
-YQ_YAML_MODES = [[], ["-I", "4"], ["-I", "0"]]
+YQ_YAML_MODES = [[], ["-I", "4"], ["-I", "3"], ["-I", "0"], ["--tab"]]
 
 
 def sig_of(e, events=None, k=None):
@@ -279,8 +279,8 @@ def sig_of(e, events=None, k=None):
     n1 = first.get("n", first.get("r"))
     n2 = e.get("r", e.get("n"))
     cls = "route" if (n1 == n2 and first.get("vh") == e.get("vh")) else ("count" if n1 != n2 else "value")
-    return {"event": "obs", "tool": e["tool"], "kind": e["kind"], "cls": cls, "yamlout": e["yamlout"], "wrap": e.get("wrap", ""),
-            "mode": e.get("mode", "")}
+    return {"event": "obs", "tool": e["tool"], "kind": e["kind"], "cls": cls, "yamlout": e["yamlout"],
+            "indent0": int(bool(e["yamlout"]) and "-I 0" in e.get("mode", ""))}
 
 
 def run(ctx):
@@ -296,7 +296,7 @@ def run(ctx):
     small = [p for p in progs if p["steps"] <= 1]
     big = [p for p in progs if p["steps"] > 1]
     rng.shuffle(big)
-    chosen = small + big[:(110 if q else len(big))]
+    chosen = small + big[:(45 if q else len(big))]
 
     cli = vlib.cli_bin()
     hook = hook_present(cli, ctx.work)
@@ -402,12 +402,16 @@ def run(ctx):
     tp = ctx.path("trace.ndjson")
     vlib.write_ndjson(tp, events)
 
+    logged = set()
+
     def sig_wrap(e, evs, k):
         s = sig_of(e, evs, k)
         pr, obs = meta[e["k"]]
-        if s["cls"] != "route":
-            s["first_doc"] = minimal_doc(cli, pr)
-        vlib.log("[C27] rejected pair: %s %s  | %s" % (pr["tool"], pr["a"], pr["b"]))
+        if s["cls"] != "route" and e["k"] not in logged:
+            logged.add(e["k"])
+            vlib.log("[C27] disagreeing pair: %s %s  | %s" % (pr["tool"], pr["a"], pr["b"]))
+            if len(logged) <= 3:
+                minimal_doc(cli, pr)
         return s
 
     vlib.check_trace(ctx, "Trace_Routes.tla", "Trace.cfg", tp, sig_wrap, group_key=lambda e: "n" in e, timeout=1200)
